@@ -18,6 +18,7 @@ pub fn err_kind(e: &LinearizationError) -> &'static str {
         LinearizationError::UnimplementedExpression(_) => "UnimplementedExpression",
         LinearizationError::NonBinaryLogicOperand(_) => "NonBinaryLogicOperand",
         LinearizationError::MissingFiniteBounds { .. } => "MissingFiniteBounds",
+        LinearizationError::NonFiniteNumber(_) => "NonFiniteNumber",
     }
 }
 
@@ -262,13 +263,40 @@ pub fn well_formed(
             names.push(name);
         }
     }
-    // the first use of each user-written name is preserved
-    for n in source_names {
-        if !n.is_empty() && !names.contains(n) {
-            return Err((
-                "user-row-name-lost".into(),
-                format!("source constraint name {n:?} is on no row; row names {:?}", names),
-            ));
+    // Every row name is a user name or a de-duplicated variant `n__k` of one (its origin is the
+    // longest such user name); when variants of `n` exist, one row carries `n` itself - "the first
+    // use of each user-written name is preserved". A named constraint that compiles to no row at
+    // all (a tautology) leaves nothing to preserve.
+    let origin_of = |r: &String| -> Option<&String> {
+        if let Some(n) = source_names.iter().find(|n| *n == r) {
+            return Some(n);
+        }
+        source_names
+            .iter()
+            .filter(|n| {
+                r.strip_prefix(n.as_str())
+                    .and_then(|rest| rest.strip_prefix("__"))
+                    .map(|k| !k.is_empty() && k.chars().all(|c| c.is_ascii_digit()))
+                    .unwrap_or(false)
+            })
+            .max_by_key(|n| n.len())
+    };
+    for r in &names {
+        match origin_of(r) {
+            None => {
+                return Err((
+                    "row-name-of-unknown-origin".into(),
+                    format!("row name {r:?}; user names {:?}", source_names),
+                ))
+            }
+            Some(n) => {
+                if n != r && !names.contains(n) {
+                    return Err((
+                        "user-row-name-lost".into(),
+                        format!("row {r:?} was derived from the user name {n:?}, but no row is named {n:?}; row names {:?}", names),
+                    ));
+                }
+            }
         }
     }
     // declared variables keep a domain of the same kind inside their declaration
